@@ -87,6 +87,58 @@ pub fn ast_case(ctx: &mut Ctx, input: &str, ext_bits: u32, desc: &str) {
     ctx.case(format!("ast {ext_bits} {}", enc_text(input)), reply, nblocks > 0, format!("build_ast {desc}"));
 }
 
+/// The painted pieces of the coloured text `SourceReport::write` produced, per diagnostic in write order, compared
+/// with the model of the label preparation (lean/CookModel/Side/Report.lean, op `report_prep`): which labels are
+/// shown, in which order, in which colour, on which line, and which bytes of the source they cover.
+pub fn report_prep_case(ctx: &mut Ctx, input: &str, rep: &cooklang::error::SourceReport, colored: &[u8], desc: &str) {
+    if rep.is_empty() { return; }
+    if input.contains('\u{1b}') || input.contains('│') { ctx.count("report_prep:skipped (ESC or box character in the input)"); return; }
+    let Ok(text) = std::str::from_utf8(colored) else { return };
+    let order: Vec<&cooklang::error::SourceDiag> = rep.warnings().chain(rep.errors()).collect();
+    // per diagnostic: the code lines (0-based line number, painted pieces)
+    let mut diags: Vec<Vec<(usize, Vec<(String, String)>)>> = vec![];
+    for line in text.split('\n') {
+        if line.starts_with("\u{1b}[33mWarning:\u{1b}[0m ") || line.starts_with("\u{1b}[31mError:\u{1b}[0m ") { diags.push(vec![]); continue; }
+        let t = line.trim_start_matches(' ');
+        let digits: String = t.chars().take_while(|c| c.is_ascii_digit()).collect();
+        if digits.is_empty() { continue; }
+        let Some(mut rest) = t[digits.len()..].strip_prefix(" │") else { continue };
+        let Some(cur) = diags.last_mut() else { continue };
+        // continuation marker of a label that runs over several lines: a painted `│` right after the gutter
+        if let Some(r) = rest.strip_prefix(" \u{1b}[") {
+            if let Some((code, after)) = r.split_once('m') {
+                if code.chars().all(|c| c.is_ascii_digit()) { if let Some(after) = after.strip_prefix("│\u{1b}[0m") { rest = after; } }
+            }
+        }
+        let mut pieces = vec![];
+        let mut r = rest;
+        while let Some(i) = r.find("\u{1b}[") {
+            let after = &r[i + 2..];
+            let Some((code, after)) = after.split_once('m') else { break };
+            let Some((piece, after)) = after.split_once("\u{1b}[0m") else { break };
+            let name = match code { "95" => "BrightMagenta", "92" => "BrightGreen", "96" => "BrightCyan", "94" => "BrightBlue", "93" => "BrightYellow", "91" => "BrightRed", other => other };
+            pieces.push((name.to_string(), piece.to_string()));
+            r = after;
+        }
+        cur.push((digits.parse::<usize>().unwrap_or(0).wrapping_sub(1), pieces));
+    }
+    let reply = if diags.len() != order.len() { format!("UNPARSEABLE {} headers for {} diagnostics", diags.len(), order.len()) } else {
+        order.iter().zip(diags.iter()).map(|(d, lines)| {
+            if d.labels.is_empty() { "N".to_string() }
+            else if lines.is_empty() { "R".to_string() }
+            else { format!("B[{}]", lines.iter().map(|(n, ps)| format!("L{n}:{}", ps.iter().map(|(c, t)| format!("{c}={}", r_cps(t))).collect::<Vec<_>>().join(","))).collect::<Vec<_>>().join(";")) }
+        }).collect::<Vec<_>>().join(" ")
+    };
+    for (d, lines) in order.iter().zip(diags.iter()) {
+        ctx.count(if d.labels.is_empty() { "report_prep:diag:no-labels" } else if lines.is_empty() { "report_prep:diag:block-refused" } else if lines.len() > 1 { "report_prep:diag:block-multi-line" } else { "report_prep:diag:block" });
+        if d.labels.len() >= 7 { ctx.count("report_prep:diag:7+labels (colour wrap-around)"); }
+    }
+    let enc = |d: &cooklang::error::SourceDiag| format!("{}:{}", if d.is_warning() { "W" } else { "E" },
+        if d.labels.is_empty() { "-".to_string() } else { d.labels.iter().map(|l| format!("{}.{}", l.0.start(), l.0.end())).collect::<Vec<_>>().join(",") });
+    let ds = rep.iter().map(enc).collect::<Vec<_>>().join(";");
+    ctx.case(format!("report_prep {} {}", enc_text(input), ds), reply, order.iter().any(|d| !d.labels.is_empty()), format!("report_prep {desc}"));
+}
+
 pub fn one(ctx: &mut Ctx, input: &str, ext_bits: u32, full_parse: bool) {
     let ext = Extensions::from_bits_retain(ext_bits);
     let desc = format!("ext={ext_bits} input={input:?}");
@@ -175,7 +227,7 @@ pub fn one(ctx: &mut Ctx, input: &str, ext_bits: u32, full_parse: bool) {
                         let mut buf = Vec::new();
                         if let Err(p) = guarded(|| res.report().write("r.cook", input, color, &mut buf)) {
                             ctx.oracle_fail(desc.clone(), format!("SourceReport::write panicked: {p}"), "c04:report-render".into());
-                        }
+                        } else if color { report_prep_case(ctx, input, res.report(), &buf, &desc); }
                     }
                 }
             }
